@@ -52,7 +52,7 @@ def cases(tier, seed, args):
                         opts=dict(spatial_weight=1.0, spectral_weight=1.0, covariance_type=['spherical', 'full', 'diagonal'][i % 3],
                                   affiliation_eps=0.0), offset=0.0, sal_class=True, E=3))
     # badly scaled / sharply concentrated regimes
-    for i in range(6 if q else 36):
+    for i in range(12 if q else 48):
         if i % 2 == 0:
             # GMM on small-scale data (class std 1e-3 .. 1e-5): absolute regularisers are no longer negligible
             out.append(dict(t='ll', kind='gmm', L=[], K=2 + i % 2, D=2, N=60, wca=(-1,), wca_type='tuple', iterations=8 if q else 20,
@@ -60,9 +60,14 @@ def cases(tier, seed, args):
                             offset=0.0, sal_class=False, scale=[1e-3, 1e-4, 1e-5][(i // 6) % 3], informed=bool((i // 2) % 2)))
         else:
             # cWMM with sharply concentrated classes: fitted concentrations between 100 and the limit of 500
-            out.append(dict(t='ll', kind='cwmm', L=[], K=2, D=3, N=60, wca=(-1,), wca_type='tuple', iterations=15 if q else 30,
+            out.append(dict(t='ll', kind='cwmm', L=[], K=2, D=3, N=[60, 200][(i // 2) % 2], wca=(-1,), wca_type='tuple', iterations=15 if q else 30,
                             saliency=False, seed=int(rng.integers(1 << 30)), opts={}, offset=0.0, sal_class=False,
-                            noise=[0.1, 0.07, 0.12][(i // 2) % 3], informed=bool((i // 2) % 2)))
+                            noise=[0.1, 0.066, 0.12, 0.06, 0.07, 0.055][(i // 2) % 6], informed=bool((i // 2) % 2)))
+    # long soft-start runs in which one class crosses a concentration of 200 on its way (the other class stays ordinary)
+    for i in range(2 if q else 8):
+        out.append(dict(t='ll', kind='cwmm', L=[], K=2, D=3, N=[400, 600][i % 2], wca=(-1,), wca_type='tuple', iterations=16,
+                        saliency=False, seed=1 + 2 * int(rng.integers(1 << 29)), opts={}, offset=0.0, sal_class=False,
+                        noise=[0.066, 0.06, 0.07, 0.062][i % 4], informed=False))
     return out
 
 
@@ -143,7 +148,11 @@ def run_case(case):
     if kind == 'cwmm' and case.get('noise'):
         proto = ml.unit(rng.normal(size=(K, D)) + 1j * rng.normal(size=(K, D)))
         lab0 = rng.integers(0, K, size=(*L, N))
-        data['y'] = proto[lab0] + case['noise'] / np.sqrt(2) * (rng.normal(size=(*L, N, D)) + 1j * rng.normal(size=(*L, N, D)))
+        # class 0 sharply concentrated, the other classes ordinary (every second case): the concentrated class is not clipped
+        sig = np.full(K, case['noise'])
+        if case['seed'] % 2:
+            sig[1:] = 0.25
+        data['y'] = proto[lab0] + (sig[lab0] / np.sqrt(2))[..., None] * (rng.normal(size=(*L, N, D)) + 1j * rng.normal(size=(*L, N, D)))
     lab = None
     if case.get('sal_class') and kind == 'cacgmm':
         # overlapping anisotropic cACG sources: y = A_k x
